@@ -15,7 +15,7 @@ RULE = (
     "the component of A(J) orthogonal to the rows of J vanishes (all aggregators documented as weighted: the 13 "
     "_WeightedAggregator subclasses incl. fresh NashMTL instances, and ConFIG); orth - A(JQ) ~ A(J)Q for a drawn "
     "dense orthogonal or signed-permutation Q (UPGrad, DualProj, MGDA, PCGrad, CAGrad, IMTL-G, Aligned-MTL, ConFIG, "
-    "Krum, Mean, Sum, Constant, Random); colperm - A(J[:,p]) ~ A(J)[p]; zerocol - inserting 1-3 zero columns at drawn "
+    "Krum, Mean, Sum, Constant, Random); colperm - A(J[:,p]) ~ A(J)[p]; zerocol - inserting 1-3 (or 100/1000/5000) zero columns at drawn "
     "positions leaves the other coordinates unchanged and puts ~0 in the new ones (every aggregator but GradDrop, "
     "whose draws are per column; PCGrad/Random under a fixed seed, PCGrad with a scripted schedule so that its "
     "branch margins can be evaluated). Tolerances per algorithm (vlib/relations.py); MGDA two-level (fp when all "
@@ -31,7 +31,7 @@ ASSUMPTIONS = [
 LEVEL_TEXT = "Generated-input search with metamorphic (orthogonal / column) relations and a span validity predicate. No proof."
 LEVEL_NOTE = "Trusted: NumPy QR for Q, float64 least squares for the span residual, margin computations, constant K."
 TECHNIQUE = "property-based testing (Hypothesis) with metamorphic relations and a validity predicate"
-REQUIRED_CLASSES = {"span": 1, "orth": 1, "colperm": 1, "zerocol": 1, "orth:dense": 1, "MGDA:tight": 1}
+REQUIRED_CLASSES = {"zerocol:wide": 1, "span": 1, "orth": 1, "colperm": 1, "zerocol": 1, "orth:dense": 1, "MGDA:tight": 1}
 
 GRAMIAN = ["UPGrad", "DualProj", "MGDA", "PCGrad", "CAGrad", "IMTLG", "AlignedMTL", "ConFIG", "Krum", "Mean", "Sum",
            "Constant", "Random"]
@@ -40,13 +40,15 @@ SPAN = GRAMIAN + ["NashMTL"]
 
 
 @st.composite
-def _case(draw):
-    relation = draw(st.sampled_from(["span", "orth", "orth", "colperm", "zerocol"]))
+def _case(draw, near=False):
+    """near=True: directed regime - orthogonal relation, aggregators with a normalisation threshold, every entry of J
+    just below norm_eps while its largest singular value is above 2 norm_eps."""
+    relation = "orth" if near else draw(st.sampled_from(["span", "orth", "orth", "colperm", "zerocol"]))
     pool = {"span": SPAN, "orth": GRAMIAN, "colperm": COLUMN, "zerocol": COLUMN}[relation]
-    name = draw(st.sampled_from(pool))
+    name = draw(st.sampled_from(["UPGrad", "DualProj", "CAGrad"] if near else pool))
     dtype = draw(st.sampled_from(["float64", "float32"]))
     rng = np.random.default_rng(draw(SEEDS))
-    m = draw(st.integers(1, 7))
+    m = draw(st.integers(2, 7) if near else st.integers(1, 7))
     if name == "Krum":
         m = max(m, 4)
     if name == "NashMTL":
@@ -85,17 +87,28 @@ def _case(draw):
             J = build(fam, m, n, rng, {"cond": 30.0, "rank": draw(st.integers(1, max(1, min(m, n)))), "eps": 1e-2,
                                        "delta": 1e-2})
     J = J * 10.0 ** draw(st.integers(-3, 3))
+    if name in ("UPGrad", "DualProj", "CAGrad") and (near or draw(st.sampled_from([True, False, False, False]))):
+        # largest singular value just above norm_eps (entries may be below it): the normalisation threshold must look
+        # at the singular value, i.e. at J J^T, not at the entries
+        s0 = float(np.linalg.svd(J, compute_uv=False)[0]) if J.size else 0.0
+        a0 = float(np.abs(J).max(initial=0.0))
+        if s0 > 0:
+            if (near or rng.integers(0, 2)) and s0 / a0 > 2.6:
+                J = J * (1e-4 * rng.uniform(0.8, 0.999) / a0)  # every entry just below norm_eps, s above 2 norm_eps
+            else:
+                J = J * (1e-4 * 10.0 ** rng.uniform(0.4, 1.5) / s0)
     case = {"relation": relation, "agg": spec, "dtype": dtype, "J": J.tolist(), "family": fam,
             "seed": draw(st.integers(0, 2**31 - 1))}
     if relation == "orth":
-        qkind = draw(st.sampled_from(["dense", "dense", "dense", "perm"]))
+        qkind = "dense" if near else draw(st.sampled_from(["dense", "dense", "dense", "perm"]))
         case["Q"] = orthogonal(rng, n, qkind).tolist()
         case["qkind"] = qkind
     elif relation == "colperm":
         case["perm"] = rng.permutation(n).tolist()
     elif relation == "zerocol":
-        k = draw(st.integers(1, 3))
-        case["positions"] = sorted(rng.integers(0, n + 1, size=k).tolist())
+        # 1-3 columns, or MANY (parameters that influence nothing are the common case in large models)
+        k = draw(st.sampled_from([1, 2, 3, 3, 100, 1000, 5000]))
+        case["positions"] = sorted(rng.integers(0, n + 1, size=k).tolist()) if k <= 3 else {"count": k, "where": int(rng.integers(0, n + 1))}
     if name == "PCGrad":
         case["schedule"] = [rng.permutation(m).tolist() for _ in range(m)]
     return case
@@ -103,7 +116,9 @@ def _case(draw):
 
 def parts(tier):
     n = 15_000 if tier == "quick" else 400_000
-    return [Part("generated", "given", n=n, strategy=_case)]
+    n2 = 2_000 if tier == "quick" else 40_000
+    return [Part("generated", "given", n=n, strategy=_case),
+            Part("entries_below_norm_eps", "given", n=n2, strategy=lambda: _case(near=True))]
 
 
 def _run(spec, dtype, Jt, case):
@@ -166,7 +181,11 @@ def run_case(case) -> Outcome:
         label = f"column-permutation:{name}"
     else:
         cols, src = [], 0
-        pos = list(case["positions"])
+        pos = case["positions"]
+        if isinstance(pos, dict):  # a block of `count` zero columns inserted at one position
+            pos = [pos["where"]] * pos["count"]
+            out.cls("zerocol:wide")
+        pos = list(pos)
         newpos, keep = [], []
         total = n + len(pos)
         # positions refer to insertion points in the original matrix
